@@ -1222,9 +1222,13 @@ def h2_cases(ctx):
     lines = []
     segs = ["0", "0", "9", "9", "10", "1", "2", "7", "16384", "8192", "4096", "9,1", "9,5000", "3,6,1"]
     for i in range(6000 if ctx.quick else 60000):
-        n = rng.choice([0, 1, 2, 5, 17, 100, 1000, 16128, 16384, 20000, 65535, 65536, 65537, 70000, 200000])
-        if rng.random() < 0.5:
+        k = rng.random()
+        if k < 0.55:
             n = rng.randint(0, 40)
+        elif k < 0.88:
+            n = rng.choice([0, 1, 2, 5, 17, 100, 1000, 5000])
+        else:
+            n = rng.choice([16128, 16384, 20000, 65535, 65536, 65537, 70000, 200000])
         frames, left = [], n
         while True:
             pad = -1 if rng.random() < 0.5 else rng.choice([0, 1, 2, 7, 100, 255])
